@@ -22,9 +22,29 @@ ASSUMPTIONS = ['runs with non-positive total capital cost (grants exceed cost) a
                'IRR relation tolerance: |NPV(IRR)| <= 1e-6 * sum_t |cf_t/(1+IRR)^t| (conditioning of the sum at that rate)']
 
 
+@st.composite
+def cliff_cases(draw):
+    """operating cash flow that turns negative late in the project (an incentive expires, revenue drops below O&M): the
+    cumulative series turns positive and falls back - the class where payback / N/A logic is most easily wrong"""
+    rb = gen.RESERVOIRS[draw(st.sampled_from(['4', '3']))]
+    life = draw(st.integers(20, 45))
+    dur = draw(st.integers(3, life // 2))
+    p = gen.merge(rb, gen.ELEC(draw(st.integers(1, 2))), draw(gen.econ_blocks())[1],
+                  [['Plant Lifetime', str(life)], ['Time steps per year', str(draw(st.integers(1, 4)))],
+                   ['Gradient 1', gen.fmt(draw(gen.nice_floats(55, 80)))],
+                   ['Starting Electricity Sale Price', gen.fmt(draw(gen.nice_floats(0.005, 0.03)))],
+                   ['Ending Electricity Sale Price', gen.fmt(draw(gen.nice_floats(0.005, 0.03)))],
+                   ['Production Tax Credit Electricity', gen.fmt(draw(gen.nice_floats(0.08, 0.4)))],
+                   ['Production Tax Credit Duration', str(dur)],
+                   ['Total Capital Cost', gen.fmt(draw(gen.nice_floats(10, 90)))], ['Total O&M Cost', gen.fmt(draw(gen.nice_floats(1, 9)))],
+                   ['Construction Years', str(draw(st.integers(1, 4)))]])
+    return {'family': 'cliff', 'params': p, 'labels': ['incentive_cliff', 'ptc_elec', 'price_escalation']}
+
+
 def strategy(tier):
-    return gen.configs(reservoirs=('4', '3'), slow_fraction=0.0 if tier == 'quick' else 0.03, addons=0.2, prices=True,
+    base = gen.configs(reservoirs=('4', '3'), slow_fraction=0.0 if tier == 'quick' else 0.03, addons=0.2, prices=True,
                        costs=True, examples=0.12)
+    return st.one_of(base, base, base, base, base, base, cliff_cases())
 
 
 def plan(tier, seed, shards):
@@ -197,6 +217,8 @@ def evaluate(case, rec):
     escal = any(n_.endswith('Escalation Rate Per Year') and float(v) > 0 for n_, v in case['params'])
     sign_change = any((cum[i] > 0) != (cum[i - 1] > 0) for i in range(1, n))
     nontrivial = (cy >= 2 or escal or carbon_on) and sign_change
+    if cr and cum[-1] <= 0:
+        labels.append('turns_positive_then_ends_nonpositive')
     labels += [f'enduse:{enduse}', 'pays_back' if cr else 'never_pays_back', f'cy:{min(cy, 5)}{"+" if cy > 5 else ""}']
     if carbon_on:
         labels.append('carbon_on')
